@@ -517,6 +517,22 @@ def f_undeclared_path_var(d):
     op(d, "/toys/{toyId}", "delete", {"operationId": "dropToy", "tags": ["toys"], "parameters": [{"name": "force", "in": "query", "schema": {"type": "boolean"}}], "responses": {"204": {"description": "gone"}}})
 
 
+def f_shared_param_inline(d):
+    """A component parameter with an INLINE (promoted) schema referenced from operations on different paths, plus
+    path-level parameters declared AFTER the methods of their path item."""
+    d["components"].setdefault("parameters", {})["Include"] = {"name": "include", "in": "query", "schema": {"type": "array", "items": {"type": "string", "enum": ["owner", "tags"]}}}
+    d["components"]["parameters"]["Shape"] = {"name": "shape", "in": "query", "schema": obj({"w": {"type": "integer"}})}
+    for res in ("users", "orders"):
+        op(d, f"/{res}", "get", {"operationId": f"list_{res}", "tags": [res], "parameters": [{"$ref": "#/components/parameters/Include"}, {"$ref": "#/components/parameters/Shape"}], "responses": {"200": jresp({"type": "array", "items": ref("Pet")})}})
+    item = {
+        "get": {"operationId": "getGadget", "tags": ["gadgets"], "responses": {"200": jresp(ref("Pet"))}},
+        "delete": {"operationId": "dropGadget", "tags": ["gadgets"], "responses": {"204": {"description": "gone"}}},
+        "put": {"operationId": "putGadget", "tags": ["gadgets"], "requestBody": {"required": False, "content": {"application/json": {"schema": ref("Pet")}}}, "responses": {"200": jresp(ref("Pet"))}},
+        "parameters": [{"name": "gadgetId", "in": "path", "required": True, "schema": {"type": "integer"}}, {"name": "X-Trace", "in": "header", "required": False, "schema": {"type": "string"}}],
+    }
+    d["paths"]["/gadgets/{gadgetId}"] = item
+
+
 def f_promoted_collision(d):
     """Declared schemas whose names equal the names the parser derives for inline property schemas of a later schema
     (`Keeper` + `status` -> `KeeperStatus`): exercises the name-conflict fallbacks of _parse_properties."""
